@@ -4,6 +4,7 @@ Actors are the workload, not a stub of the system.  A resolver actor records sta
 and exactly what it received, suspends at a simulator point, then serves the result the reference
 executor planned for its response path (or the injected fault)."""
 import asyncio
+import copy
 import zlib
 
 from simv import boot  # noqa: F401  (installs the parser stub and imports the repo's tartiflette)
@@ -38,6 +39,10 @@ class Runtime:
         self.shared = None  # dict shared by the requests of a batch (one exception instance for all)
         self.override = None  # path -> raw value (C03: adversarial results)
         self.type_override = None  # path -> what the harness type resolver returns there (C03)
+        self.lag_points = 0  # suspension points taken inside argument / input coercion
+        # resolvers consume (mutate) the argument dictionary they were given; only sound when no
+        # argument value comes from a variable (coerced variable values are shared by all their uses)
+        self.scramble_args = False
         self.event_plans = []  # subscriptions: [(payload, plan)] in source order
         self.event_calls = []
         self.source_args = []
@@ -84,6 +89,19 @@ def canon(v):
     return "%s:%s" % (type(v).__name__, r)
 
 
+def _scramble(v):
+    """Mutate a received argument structure in place (pop / append / overwrite at every level)."""
+    if isinstance(v, dict):
+        for k in list(v):
+            _scramble(v[k])
+        v.clear()
+        v["__consumed__"] = True
+    elif isinstance(v, list):
+        for x in v:
+            _scramble(x)
+        v.append("__consumed__")
+
+
 def make_resolver(coord, bundle=None):
     async def actor(parent, args, ctx, info):
         rt = _rt_of(ctx)
@@ -94,8 +112,10 @@ def make_resolver(coord, bundle=None):
         loop.ev("start", rt.rid, path)
         rt.started[path] = rt.started.get(path, 0) + 1
         ctx_ok = getattr(ctx, "rt", None) is rt
-        rt.calls.append((path, coord, parent, dict(args) if isinstance(args, dict) else args, ctx_ok,
+        rt.calls.append((path, coord, parent, copy.deepcopy(args) if isinstance(args, dict) else args, ctx_ok,
                          (info.parent_type.name, info.field_name)))
+        if isinstance(args, dict) and rt.scramble_args:
+            _scramble(args)  # the argument dictionary belongs to this call: a resolver may consume it
         rt.seen_vars.append(info.variable_values)
         if rt.suspend:
             await loop.point((rt.rid,) + path)
@@ -114,8 +134,13 @@ def make_resolver(coord, bundle=None):
                     raise UserError(tf[2], user_message=tf[0], extensions=dict(tf[1]))
                 raise UserError(tf[0], extensions=dict(tf[1]))
             if kind == "raise_odd":
-                from simv.model.exec import EmptyMessageError, UnprintableError
-                raise (UnprintableError() if (zlib.crc32(repr(path).encode()) % 2) else EmptyMessageError())
+                from simv.model.exec import EmptyMessageError, PathCarryingError, UnprintableError
+                which = zlib.crc32(repr(path).encode()) % 3
+                if which == 0:
+                    raise UnprintableError()
+                if which == 1:
+                    raise EmptyMessageError()
+                raise PathCarryingError("odd " + tok)
             if kind == "raise_shared":
                 pool = rt.shared if rt.shared is not None else rt.__dict__.setdefault("_own_shared", {})
                 if "exc" not in pool:
@@ -208,10 +233,31 @@ def make_source(coord):
     return source
 
 
+def register_lag(name):
+    class Lag:
+        async def on_argument_execution(self, da, nxt, parent_node, arg_def, arg_node, value, ctx):
+            rt = _rt_of(ctx)
+            if rt is not None:
+                rt.lag_points += 1
+                await rt.loop.point((rt.rid, "lag-arg", rt.lag_points))
+            return await nxt(parent_node, arg_def, arg_node, value, ctx)
+
+        async def on_post_input_coercion(self, da, nxt, parent_node, value, ctx):
+            rt = _rt_of(ctx)
+            if rt is not None:
+                rt.lag_points += 1
+                await rt.loop.point((rt.rid, "lag-in", rt.lag_points))
+            return await nxt(parent_node, value, ctx)
+
+    Directive("lag", schema_name=name)(Lag())
+
+
 def bundle_steps(schema, name, type_as_object=False, bundle=None):
     """The registrations of a schema model under a schema name, one callable per registered object:
     [(kind, label, callable)] with kind in resolver|type_resolver|scalar|subscription."""
     steps = []
+    if "lag" in schema.directives:
+        steps.append(("directive", "lag", lambda: register_lag(name)))
     if schema.subscription:
         for f in schema.t(schema.subscription).fields.values():
             coord = (schema.subscription, f.name)
@@ -253,7 +299,7 @@ ENGINE_CONFIGS = [
 ]
 
 
-MARK_SDL = "\ndirective @mark(k: Int!) on FIELD\n"
+MARK_SDL = "\ndirective @mark(k: Int!, deep: [[Int]]) on FIELD\n"
 
 
 def register_mark(name):
@@ -263,8 +309,12 @@ def register_mark(name):
             rt = _rt_of(ctx)
             if rt is not None:
                 rt.loop.ev("hook", rt.rid, "mark", da.get("k"))
-            if isinstance(da.get("k"), int) and da["k"] % 2:
-                raise UserError("mark %r refuses" % (da["k"],))
+            k = da.get("k")
+            deep = da.get("deep")
+            if deep and isinstance(deep, list) and deep[0] and isinstance(deep[0], list):
+                k = deep[0][0]
+            if isinstance(k, int) and k % 2:
+                raise UserError("mark %r refuses" % (k,))
             return await nxt(parent, args, ctx, info)
 
     Directive("mark", schema_name=name)(Mark())
